@@ -1,6 +1,6 @@
 (* Props_Dfa.v — the lazy DFA (dfa/lazy): statements only.
    Model: Dfa.v (current code; the variant flags of dconfig select the ORIGINAL variants of the
-   functions repaired by 33a0339, fd804d1, bde2710, ce6ce59).  Cache transparency (C13):
+   functions repaired by 33a0339, fd804d1, bde2710, ce6ce59, edee2be).  Cache transparency (C13):
    DfaCache.v.  Pure layer = reference (C01/C02/C14): DfaRef.v.  End to end: DfaTop.v.
    Every theorem below is closed under the global context. *)
 From Coq Require Import List NArith ZArith Bool Arith.
@@ -12,10 +12,10 @@ Theorem Dfa_cinv_new :
 Proof. exact cinv_new. Qed.
 Print Assumptions Dfa_cinv_new.
 
-Theorem Dfa_accel_ok_new :
-  accel_ok new_cache.
-Proof. exact accel_ok_new. Qed.
-Print Assumptions Dfa_accel_ok_new.
+Theorem Dfa_accel_sound_new :
+  forall (A : nfa) (cfg : dconfig), accel_sound A cfg new_cache.
+Proof. exact accel_sound_new. Qed.
+Print Assumptions Dfa_accel_sound_new.
 
 Theorem Dfa_dz_spec :
   forall (A : nfa) (cfg : dconfig),
@@ -30,17 +30,11 @@ Theorem Dfa_dz_spec :
 Proof. exact dz_spec. Qed.
 Print Assumptions Dfa_dz_spec.
 
-Theorem Dfa_dz_accel :
-  forall (A : nfa) (cfg : dconfig),
-  has_wb A = false ->
-  cfg_sorted_key cfg = false ->
-  cfg_old_entry cfg = false ->
-  2 <= stride cfg ->
-  forall (c : cache) (cur : nat) (b : N) (cs : cstate) (c' : cache) (z : zres),
-  accel_ok c ->
-  slot c cur = Some cs -> cs_accel cs = Some [] -> dz A cfg c cur b = (c', z) -> accel_ok c'.
-Proof. exact dz_accel. Qed.
-Print Assumptions Dfa_dz_accel.
+Theorem Dfa_dz_asound :
+  forall (A : nfa) (cfg : dconfig) (c : cache) (cur : nat) (b : N) (c' : cache) (z : zres),
+  accel_sound A cfg c -> dz A cfg c cur b = (c', z) -> accel_sound A cfg c'.
+Proof. exact dz_asound. Qed.
+Print Assumptions Dfa_dz_asound.
 
 Theorem Dfa_get_start_spec :
   forall (A : nfa) (cfg : dconfig),
@@ -53,6 +47,47 @@ Theorem Dfa_get_start_spec :
   cinv A cfg c' /\ (forall t : tid, o = Some t -> rep c' t (d_ids (pstart A k anch))).
 Proof. exact get_start_spec. Qed.
 Print Assumptions Dfa_get_start_spec.
+
+Theorem Dfa_detect_sound_spec :
+  forall (A : nfa) (cfg : dconfig),
+  has_wb A = false ->
+  (forall (ids : list nat) (b b' : N),
+  class_of cfg b = class_of cfg b' -> cdet A cfg ids b = cdet A cfg ids b') ->
+  cfg_sorted_key cfg = false ->
+  cfg_old_entry cfg = false ->
+  cfg_loose_accel cfg = false ->
+  cfg_accel_no_eoi cfg = false ->
+  has_endline A = false ->
+  runs_ok 0 (cfg_classes cfg) (stride cfg) = true ->
+  forall (c : cache) (i : nat) (s : cstate),
+  cinv A cfg c ->
+  slot c i = Some s ->
+  detect_accel_sound cfg c i <> [] ->
+  forall b : N,
+  (b <= 255)%N ->
+  existsb (N.eqb b) (detect_accel_sound cfg c i) = false ->
+  cdet A cfg (d_ids (cs_d s)) b = CNext (d_ids (cs_d s)) (d_match (cs_d s)).
+Proof. exact detect_sound_spec. Qed.
+Print Assumptions Dfa_detect_sound_spec.
+
+Theorem Dfa_run_calls_inv :
+  forall (A : nfa) (cfg : dconfig),
+  has_wb A = false ->
+  (forall (ids : list nat) (b b' : N),
+  class_of cfg b = class_of cfg b' -> cdet A cfg ids b = cdet A cfg ids b') ->
+  cfg_sorted_key cfg = false ->
+  cfg_old_entry cfg = false ->
+  cfg_loose_accel cfg = false ->
+  cfg_accel_no_eoi cfg = false ->
+  has_endline A = false ->
+  runs_ok 0 (cfg_classes cfg) (stride cfg) = true ->
+  (contains_match A (d_ids (pstart A KText false)) = true -> ref_bool A [] 0 = true) ->
+  forall (ks : list call) (c : cache),
+  Forall fwd_call ks ->
+  cinv A cfg c ->
+  accel_sound A cfg c -> cinv A cfg (run_calls A cfg c ks) /\ accel_sound A cfg (run_calls A cfg c ks).
+Proof. exact run_calls_inv. Qed.
+Print Assumptions Dfa_run_calls_inv.
 
 Theorem Dfa_c_search_anchored_eq_pure :
   forall (A : nfa) (cfg : dconfig),
@@ -91,13 +126,17 @@ Theorem Dfa_c_search_at_eq_pure :
   class_of cfg b = class_of cfg b' -> cdet A cfg ids b = cdet A cfg ids b') ->
   cfg_sorted_key cfg = false ->
   cfg_old_entry cfg = false ->
-  2 <= stride cfg ->
+  cfg_loose_accel cfg = false ->
+  cfg_accel_no_eoi cfg = false ->
+  has_endline A = false ->
+  runs_ok 0 (cfg_classes cfg) (stride cfg) = true ->
   (contains_match A (d_ids (pstart A KText false)) = true -> ref_bool A [] 0 = true) ->
   forall (h : hay) (c : cache) (at_ : nat) (c' : cache) (o : out (option nat)),
+  bytes255 h ->
   cinv A cfg c ->
-  accel_ok c ->
+  accel_sound A cfg c ->
   c_search_at A cfg h c at_ = (c', o) ->
-  cinv A cfg c' /\ accel_ok c' /\ (o = RFallback \/ o = p_search_at A cfg h at_).
+  cinv A cfg c' /\ accel_sound A cfg c' /\ (o = RFallback \/ o = p_search_at A cfg h at_).
 Proof. exact c_search_at_eq_pure. Qed.
 Print Assumptions Dfa_c_search_at_eq_pure.
 
@@ -108,13 +147,17 @@ Theorem Dfa_c_is_match_at_eq_pure :
   class_of cfg b = class_of cfg b' -> cdet A cfg ids b = cdet A cfg ids b') ->
   cfg_sorted_key cfg = false ->
   cfg_old_entry cfg = false ->
-  2 <= stride cfg ->
+  cfg_loose_accel cfg = false ->
+  cfg_accel_no_eoi cfg = false ->
+  has_endline A = false ->
+  runs_ok 0 (cfg_classes cfg) (stride cfg) = true ->
   (contains_match A (d_ids (pstart A KText false)) = true -> ref_bool A [] 0 = true) ->
   forall (h : hay) (c : cache) (at_ : nat) (c' : cache) (o : out bool),
+  bytes255 h ->
   cinv A cfg c ->
-  accel_ok c ->
+  accel_sound A cfg c ->
   c_is_match_at A cfg h c at_ = (c', o) ->
-  cinv A cfg c' /\ accel_ok c' /\ (o = RFallback \/ o = p_is_match_at A cfg h at_).
+  cinv A cfg c' /\ accel_sound A cfg c' /\ (o = RFallback \/ o = p_is_match_at A cfg h at_).
 Proof. exact c_is_match_at_eq_pure. Qed.
 Print Assumptions Dfa_c_is_match_at_eq_pure.
 
@@ -125,17 +168,40 @@ Theorem Dfa_dfa_search_cached_eq_pure :
   class_of cfg b = class_of cfg b' -> cdet A cfg ids b = cdet A cfg ids b') ->
   cfg_sorted_key cfg = false ->
   cfg_old_entry cfg = false ->
-  2 <= stride cfg ->
+  cfg_loose_accel cfg = false ->
+  cfg_accel_no_eoi cfg = false ->
+  has_endline A = false ->
+  runs_ok 0 (cfg_classes cfg) (stride cfg) = true ->
   (contains_match A (d_ids (pstart A KText false)) = true -> ref_bool A [] 0 = true) ->
-  forall (h : hay) (c : cache) (at_ : nat),
-  cinv A cfg c ->
-  accel_ok c ->
-  cinv A cfg (fst (dfa_search_at A cfg c h at_)) /\
-  accel_ok (fst (dfa_search_at A cfg c h at_)) /\
-  (snd (dfa_search_at A cfg c h at_) = fin_end A h at_ (p_search_at A cfg h at_) \/
-  snd (dfa_search_at A cfg c h at_) = ref_end A h at_).
+  forall (ks : list call) (h : hay) (at_ : nat),
+  Forall fwd_call ks ->
+  bytes255 h ->
+  let c := run_calls A cfg new_cache ks in
+  snd (dfa_search_at A cfg c h at_) = fin_end A h at_ (p_search_at A cfg h at_) \/
+  snd (dfa_search_at A cfg c h at_) = ref_end A h at_.
 Proof. exact dfa_search_cached_eq_pure. Qed.
 Print Assumptions Dfa_dfa_search_cached_eq_pure.
+
+Theorem Dfa_dfa_is_match_cached_eq_pure :
+  forall (A : nfa) (cfg : dconfig),
+  has_wb A = false ->
+  (forall (ids : list nat) (b b' : N),
+  class_of cfg b = class_of cfg b' -> cdet A cfg ids b = cdet A cfg ids b') ->
+  cfg_sorted_key cfg = false ->
+  cfg_old_entry cfg = false ->
+  cfg_loose_accel cfg = false ->
+  cfg_accel_no_eoi cfg = false ->
+  has_endline A = false ->
+  runs_ok 0 (cfg_classes cfg) (stride cfg) = true ->
+  (contains_match A (d_ids (pstart A KText false)) = true -> ref_bool A [] 0 = true) ->
+  forall (ks : list call) (h : hay) (at_ : nat),
+  Forall fwd_call ks ->
+  bytes255 h ->
+  let c := run_calls A cfg new_cache ks in
+  snd (dfa_is_match_at A cfg c h at_) = fin_bool A h at_ (p_is_match_at A cfg h at_) \/
+  snd (dfa_is_match_at A cfg c h at_) = ref_bool A h at_.
+Proof. exact dfa_is_match_cached_eq_pure. Qed.
+Print Assumptions Dfa_dfa_is_match_cached_eq_pure.
 
 Theorem Dfa_dfa_search_history_independent :
   forall (A : nfa) (cfg : dconfig),
@@ -144,14 +210,17 @@ Theorem Dfa_dfa_search_history_independent :
   class_of cfg b = class_of cfg b' -> cdet A cfg ids b = cdet A cfg ids b') ->
   cfg_sorted_key cfg = false ->
   cfg_old_entry cfg = false ->
-  2 <= stride cfg ->
+  cfg_loose_accel cfg = false ->
+  cfg_accel_no_eoi cfg = false ->
+  has_endline A = false ->
+  runs_ok 0 (cfg_classes cfg) (stride cfg) = true ->
   (contains_match A (d_ids (pstart A KText false)) = true -> ref_bool A [] 0 = true) ->
-  forall (h : hay) (at_ : nat) (c1 c2 c1' c2' : cache) (r1 r2 : option nat),
-  cinv A cfg c1 ->
-  accel_ok c1 ->
-  cinv A cfg c2 ->
-  accel_ok c2 ->
-  c_search_at A cfg h c1 at_ = (c1', RDfa r1) -> c_search_at A cfg h c2 at_ = (c2', RDfa r2) -> r1 = r2.
+  forall (ks1 ks2 : list call) (h : hay) (at_ : nat) (c1' c2' : cache) (r1 r2 : option nat),
+  Forall fwd_call ks1 ->
+  Forall fwd_call ks2 ->
+  bytes255 h ->
+  c_search_at A cfg h (run_calls A cfg new_cache ks1) at_ = (c1', RDfa r1) ->
+  c_search_at A cfg h (run_calls A cfg new_cache ks2) at_ = (c2', RDfa r2) -> r1 = r2.
 Proof. exact dfa_search_history_independent. Qed.
 Print Assumptions Dfa_dfa_search_history_independent.
 
@@ -171,9 +240,51 @@ Theorem Dfa_dfa_anchored_history_independent :
 Proof. exact dfa_anchored_history_independent. Qed.
 Print Assumptions Dfa_dfa_anchored_history_independent.
 
+Theorem Dfa_c_search_at_eq_pure_accel_ok :
+  forall (A : nfa) (cfg : dconfig),
+  has_wb A = false ->
+  (forall (ids : list nat) (b b' : N),
+  class_of cfg b = class_of cfg b' -> cdet A cfg ids b = cdet A cfg ids b') ->
+  cfg_sorted_key cfg = false ->
+  cfg_old_entry cfg = false ->
+  2 <= stride cfg ->
+  cfg_loose_accel cfg = false ->
+  cfg_accel_no_eoi cfg = false ->
+  has_endline A = false ->
+  runs_ok 0 (cfg_classes cfg) (stride cfg) = true ->
+  (contains_match A (d_ids (pstart A KText false)) = true -> ref_bool A [] 0 = true) ->
+  forall (h : hay) (c : cache) (at_ : nat) (c' : cache) (o : out (option nat)),
+  cinv A cfg c ->
+  accel_ok c ->
+  c_search_at A cfg h c at_ = (c', o) ->
+  cinv A cfg c' /\ accel_ok c' /\ (o = RFallback \/ o = p_search_at A cfg h at_).
+Proof. exact c_search_at_eq_pure_accel_ok. Qed.
+Print Assumptions Dfa_c_search_at_eq_pure_accel_ok.
+
+Theorem Dfa_c_is_match_at_eq_pure_accel_ok :
+  forall (A : nfa) (cfg : dconfig),
+  has_wb A = false ->
+  (forall (ids : list nat) (b b' : N),
+  class_of cfg b = class_of cfg b' -> cdet A cfg ids b = cdet A cfg ids b') ->
+  cfg_sorted_key cfg = false ->
+  cfg_old_entry cfg = false ->
+  2 <= stride cfg ->
+  cfg_loose_accel cfg = false ->
+  cfg_accel_no_eoi cfg = false ->
+  has_endline A = false ->
+  runs_ok 0 (cfg_classes cfg) (stride cfg) = true ->
+  (contains_match A (d_ids (pstart A KText false)) = true -> ref_bool A [] 0 = true) ->
+  forall (h : hay) (c : cache) (at_ : nat) (c' : cache) (o : out bool),
+  cinv A cfg c ->
+  accel_ok c ->
+  c_is_match_at A cfg h c at_ = (c', o) ->
+  cinv A cfg c' /\ accel_ok c' /\ (o = RFallback \/ o = p_is_match_at A cfg h at_).
+Proof. exact c_is_match_at_eq_pure_accel_ok. Qed.
+Print Assumptions Dfa_c_is_match_at_eq_pure_accel_ok.
+
 Theorem Dfa_p_search_at_cap_irrel :
   forall (A : nfa) (cap1 mc1 cap2 mc2 dl : nat) (br : bool) (st : nat) (cl : list (N * nat))
-  (k1 k2 k3 : bool) (h : hay) (at_ : nat),
+  (k1 k2 k3 k4 : bool) (h : hay) (at_ : nat),
   p_search_at A
   {|
   cfg_cap := cap1;
@@ -184,7 +295,8 @@ Theorem Dfa_p_search_at_cap_irrel :
   cfg_classes := cl;
   cfg_sorted_key := k1;
   cfg_loose_accel := k2;
-  cfg_old_entry := k3
+  cfg_old_entry := k3;
+  cfg_accel_no_eoi := k4
   |} h at_ =
   p_search_at A
   {|
@@ -196,14 +308,15 @@ Theorem Dfa_p_search_at_cap_irrel :
   cfg_classes := cl;
   cfg_sorted_key := k1;
   cfg_loose_accel := k2;
-  cfg_old_entry := k3
+  cfg_old_entry := k3;
+  cfg_accel_no_eoi := k4
   |} h at_.
 Proof. exact p_search_at_cap_irrel. Qed.
 Print Assumptions Dfa_p_search_at_cap_irrel.
 
 Theorem Dfa_p_search_anchored_cap_irrel :
   forall (A : nfa) (cap1 mc1 cap2 mc2 dl : nat) (br : bool) (st : nat) (cl : list (N * nat))
-  (k1 k2 k3 : bool) (h : hay) (at_ : nat),
+  (k1 k2 k3 k4 : bool) (h : hay) (at_ : nat),
   p_search_anchored A
   {|
   cfg_cap := cap1;
@@ -214,7 +327,8 @@ Theorem Dfa_p_search_anchored_cap_irrel :
   cfg_classes := cl;
   cfg_sorted_key := k1;
   cfg_loose_accel := k2;
-  cfg_old_entry := k3
+  cfg_old_entry := k3;
+  cfg_accel_no_eoi := k4
   |} h at_ =
   p_search_anchored A
   {|
@@ -226,14 +340,15 @@ Theorem Dfa_p_search_anchored_cap_irrel :
   cfg_classes := cl;
   cfg_sorted_key := k1;
   cfg_loose_accel := k2;
-  cfg_old_entry := k3
+  cfg_old_entry := k3;
+  cfg_accel_no_eoi := k4
   |} h at_.
 Proof. exact p_search_anchored_cap_irrel. Qed.
 Print Assumptions Dfa_p_search_anchored_cap_irrel.
 
 Theorem Dfa_p_search_first_cap_irrel :
   forall (A : nfa) (cap1 mc1 cap2 mc2 dl : nat) (br : bool) (st : nat) (cl : list (N * nat))
-  (k1 k2 k3 : bool) (h : hay) (at_ : nat),
+  (k1 k2 k3 k4 : bool) (h : hay) (at_ : nat),
   p_search_first A
   {|
   cfg_cap := cap1;
@@ -244,7 +359,8 @@ Theorem Dfa_p_search_first_cap_irrel :
   cfg_classes := cl;
   cfg_sorted_key := k1;
   cfg_loose_accel := k2;
-  cfg_old_entry := k3
+  cfg_old_entry := k3;
+  cfg_accel_no_eoi := k4
   |} h at_ =
   p_search_first A
   {|
@@ -256,14 +372,15 @@ Theorem Dfa_p_search_first_cap_irrel :
   cfg_classes := cl;
   cfg_sorted_key := k1;
   cfg_loose_accel := k2;
-  cfg_old_entry := k3
+  cfg_old_entry := k3;
+  cfg_accel_no_eoi := k4
   |} h at_.
 Proof. exact p_search_first_cap_irrel. Qed.
 Print Assumptions Dfa_p_search_first_cap_irrel.
 
 Theorem Dfa_p_is_match_at_cap_irrel :
   forall (A : nfa) (cap1 mc1 cap2 mc2 dl : nat) (br : bool) (st : nat) (cl : list (N * nat))
-  (k1 k2 k3 : bool) (h : hay) (at_ : nat),
+  (k1 k2 k3 k4 : bool) (h : hay) (at_ : nat),
   p_is_match_at A
   {|
   cfg_cap := cap1;
@@ -274,7 +391,8 @@ Theorem Dfa_p_is_match_at_cap_irrel :
   cfg_classes := cl;
   cfg_sorted_key := k1;
   cfg_loose_accel := k2;
-  cfg_old_entry := k3
+  cfg_old_entry := k3;
+  cfg_accel_no_eoi := k4
   |} h at_ =
   p_is_match_at A
   {|
@@ -286,23 +404,11 @@ Theorem Dfa_p_is_match_at_cap_irrel :
   cfg_classes := cl;
   cfg_sorted_key := k1;
   cfg_loose_accel := k2;
-  cfg_old_entry := k3
+  cfg_old_entry := k3;
+  cfg_accel_no_eoi := k4
   |} h at_.
 Proof. exact p_is_match_at_cap_irrel. Qed.
 Print Assumptions Dfa_p_is_match_at_cap_irrel.
-
-Theorem Dfa_accel_eoi_refuted :
-  exists (A : nfa) (cfg : dconfig) (hist : list call) (h : hay),
-  cfg_sorted_key cfg = false /\
-  cfg_loose_accel cfg = false /\
-  cfg_old_entry cfg = false /\
-  (let aged := run_calls A cfg new_cache hist in
-  snd (dfa_search_at A cfg new_cache h 0) = Some 2 /\
-  ref_end A h 0 = Some 2 /\
-  snd (dfa_search_at A cfg aged h 0) = None /\
-  snd (dfa_is_match_at A cfg new_cache h 0) = true /\ snd (dfa_is_match_at A cfg aged h 0) = false).
-Proof. exact accel_eoi_refuted. Qed.
-Print Assumptions Dfa_accel_eoi_refuted.
 
 Theorem Dfa_search_first_is_earliest_refuted :
   exists (A : nfa) (cfg : dconfig) (h : hay),
@@ -348,6 +454,39 @@ Theorem Dfa_accel_history_current_ok :
   snd (dfa_search_at A cfg aged h 0) = None /\ snd (dfa_is_match_at A cfg aged h 0) = false.
 Proof. exact accel_history_current_ok. Qed.
 Print Assumptions Dfa_accel_history_current_ok.
+
+Theorem Dfa_accel_eoi_original_refuted :
+  exists (A : nfa) (cfg : dconfig) (hist : list call) (h : hay),
+  cfg_sorted_key cfg = false /\
+  cfg_loose_accel cfg = false /\
+  cfg_old_entry cfg = false /\
+  cfg_accel_no_eoi cfg = true /\
+  (let aged := run_calls A cfg new_cache hist in
+  snd (dfa_search_at A cfg new_cache h 0) = Some 2 /\
+  ref_end A h 0 = Some 2 /\
+  snd (dfa_search_at A cfg aged h 0) = None /\
+  snd (dfa_is_match_at A cfg new_cache h 0) = true /\ snd (dfa_is_match_at A cfg aged h 0) = false).
+Proof. exact accel_eoi_original_refuted. Qed.
+Print Assumptions Dfa_accel_eoi_original_refuted.
+
+Theorem Dfa_accel_eoi_current_ok :
+  let A := ex_x_or_end in
+  let cfg := ex_x_or_end_cfg false in
+  let h := [97%N; 98%N] in
+  let aged := run_calls A cfg new_cache ex_x_or_end_hist in
+  snd (dfa_search_at A cfg aged h 0) = Some 2 /\
+  snd (dfa_is_match_at A cfg aged h 0) = true /\
+  existsb
+  (fun o : option cstate =>
+  match o with
+  | Some s => match cs_accel s with
+  | Some (_ :: _) => true
+  | _ => false
+  end
+  | None => false
+  end) (c_slots (fst (dfa_search_at A cfg aged h 0))) = true.
+Proof. exact accel_eoi_current_ok. Qed.
+Print Assumptions Dfa_accel_eoi_current_ok.
 
 Theorem Dfa_anchored_fallback_original_refuted :
   exists (A : nfa) (cfg : dconfig) (h : hay),
@@ -483,13 +622,15 @@ Theorem Dfa_dfa_is_match_cached_correct :
   prefix_ok A = true ->
   (forall (ids : list nat) (b b' : N),
   class_of cfg b = class_of cfg b' -> cdet A cfg ids b = cdet A cfg ids b') ->
+  runs_ok 0 (cfg_classes cfg) (stride cfg) = true ->
   cfg_sorted_key cfg = false ->
+  cfg_loose_accel cfg = false ->
   cfg_old_entry cfg = false ->
-  2 <= stride cfg ->
+  cfg_accel_no_eoi cfg = false ->
   forall (h : hay) (c : cache) (at_ : nat),
   bytes_ok h ->
   at_ <= length h ->
-  cinv A cfg c -> accel_ok c -> snd (dfa_is_match_at A cfg c h at_) = ref_bool A h at_.
+  cinv A cfg c -> accel_sound A cfg c -> snd (dfa_is_match_at A cfg c h at_) = ref_bool A h at_.
 Proof. exact dfa_is_match_cached_correct. Qed.
 Print Assumptions Dfa_dfa_is_match_cached_correct.
 
@@ -500,12 +641,15 @@ Theorem Dfa_dfa_search_at_cached_none_iff :
   prefix_ok A = true ->
   (forall (ids : list nat) (b b' : N),
   class_of cfg b = class_of cfg b' -> cdet A cfg ids b = cdet A cfg ids b') ->
+  runs_ok 0 (cfg_classes cfg) (stride cfg) = true ->
   cfg_sorted_key cfg = false ->
+  cfg_loose_accel cfg = false ->
   cfg_old_entry cfg = false ->
-  2 <= stride cfg ->
+  cfg_accel_no_eoi cfg = false ->
   forall (h : hay) (c : cache) (at_ : nat),
   bytes_ok h ->
-  cinv A cfg c -> accel_ok c -> snd (dfa_search_at A cfg c h at_) = None <-> find_at A h at_ = Done None.
+  cinv A cfg c ->
+  accel_sound A cfg c -> snd (dfa_search_at A cfg c h at_) = None <-> find_at A h at_ = Done None.
 Proof. exact dfa_search_at_cached_none_iff. Qed.
 Print Assumptions Dfa_dfa_search_at_cached_none_iff.
 
@@ -516,14 +660,16 @@ Theorem Dfa_dfa_search_at_cached_leftmost_partial :
   prefix_ok A = true ->
   (forall (ids : list nat) (b b' : N),
   class_of cfg b = class_of cfg b' -> cdet A cfg ids b = cdet A cfg ids b') ->
+  runs_ok 0 (cfg_classes cfg) (stride cfg) = true ->
   cfg_sorted_key cfg = false ->
+  cfg_loose_accel cfg = false ->
   cfg_old_entry cfg = false ->
-  2 <= stride cfg ->
+  cfg_accel_no_eoi cfg = false ->
   forall (h : hay) (c : cache) (at_ e s0 e0 : nat) (sl : slots),
   bytes_ok h ->
   cfg_break cfg = true ->
   cinv A cfg c ->
-  accel_ok c ->
+  accel_sound A cfg c ->
   snd (dfa_search_at A cfg c h at_) = Some e ->
   find_at A h at_ = Done (Some (s0, e0, sl)) -> nfa_path A h (start_anch A) s0 e.
 Proof. exact dfa_search_at_cached_leftmost_partial. Qed.
@@ -548,4 +694,84 @@ Theorem Dfa_dfa_search_anchored_cached_correct :
   at_ <= e /\ e <= length h /\ nfa_path A h (start_anch A) at_ e).
 Proof. exact dfa_search_anchored_cached_correct. Qed.
 Print Assumptions Dfa_dfa_search_anchored_cached_correct.
+
+Theorem Dfa_dfa_is_match_any_history :
+  forall (A : nfa) (cfg : dconfig),
+  wf_nfa A = true ->
+  no_look A = true ->
+  prefix_ok A = true ->
+  (forall (ids : list nat) (b b' : N),
+  class_of cfg b = class_of cfg b' -> cdet A cfg ids b = cdet A cfg ids b') ->
+  runs_ok 0 (cfg_classes cfg) (stride cfg) = true ->
+  cfg_sorted_key cfg = false ->
+  cfg_loose_accel cfg = false ->
+  cfg_old_entry cfg = false ->
+  cfg_accel_no_eoi cfg = false ->
+  forall (ks : list call) (h : hay) (at_ : nat),
+  fwd_hist ks ->
+  bytes_ok h ->
+  at_ <= length h -> snd (dfa_is_match_at A cfg (run_calls A cfg new_cache ks) h at_) = ref_bool A h at_.
+Proof. exact dfa_is_match_any_history. Qed.
+Print Assumptions Dfa_dfa_is_match_any_history.
+
+Theorem Dfa_dfa_search_at_any_history_none_iff :
+  forall (A : nfa) (cfg : dconfig),
+  wf_nfa A = true ->
+  no_look A = true ->
+  prefix_ok A = true ->
+  (forall (ids : list nat) (b b' : N),
+  class_of cfg b = class_of cfg b' -> cdet A cfg ids b = cdet A cfg ids b') ->
+  runs_ok 0 (cfg_classes cfg) (stride cfg) = true ->
+  cfg_sorted_key cfg = false ->
+  cfg_loose_accel cfg = false ->
+  cfg_old_entry cfg = false ->
+  cfg_accel_no_eoi cfg = false ->
+  forall (ks : list call) (h : hay) (at_ : nat),
+  fwd_hist ks ->
+  bytes_ok h ->
+  snd (dfa_search_at A cfg (run_calls A cfg new_cache ks) h at_) = None <-> find_at A h at_ = Done None.
+Proof. exact dfa_search_at_any_history_none_iff. Qed.
+Print Assumptions Dfa_dfa_search_at_any_history_none_iff.
+
+Theorem Dfa_dfa_search_at_any_history_leftmost_partial :
+  forall (A : nfa) (cfg : dconfig),
+  wf_nfa A = true ->
+  no_look A = true ->
+  prefix_ok A = true ->
+  (forall (ids : list nat) (b b' : N),
+  class_of cfg b = class_of cfg b' -> cdet A cfg ids b = cdet A cfg ids b') ->
+  runs_ok 0 (cfg_classes cfg) (stride cfg) = true ->
+  cfg_sorted_key cfg = false ->
+  cfg_loose_accel cfg = false ->
+  cfg_old_entry cfg = false ->
+  cfg_accel_no_eoi cfg = false ->
+  forall (ks : list call) (h : hay) (at_ e s0 e0 : nat) (sl : slots),
+  fwd_hist ks ->
+  bytes_ok h ->
+  cfg_break cfg = true ->
+  snd (dfa_search_at A cfg (run_calls A cfg new_cache ks) h at_) = Some e ->
+  find_at A h at_ = Done (Some (s0, e0, sl)) -> nfa_path A h (start_anch A) s0 e.
+Proof. exact dfa_search_at_any_history_leftmost_partial. Qed.
+Print Assumptions Dfa_dfa_search_at_any_history_leftmost_partial.
+
+Theorem Dfa_dfa_search_anchored_any_history :
+  forall (A : nfa) (cfg : dconfig),
+  wf_nfa A = true ->
+  no_look A = true ->
+  prefix_ok A = true ->
+  (forall (ids : list nat) (b b' : N),
+  class_of cfg b = class_of cfg b' -> cdet A cfg ids b = cdet A cfg ids b') ->
+  runs_ok 0 (cfg_classes cfg) (stride cfg) = true ->
+  cfg_sorted_key cfg = false ->
+  cfg_loose_accel cfg = false ->
+  cfg_old_entry cfg = false ->
+  cfg_accel_no_eoi cfg = false ->
+  forall (ks : list call) (h : list N) (at_ : nat),
+  fwd_hist ks ->
+  at_ <= length h ->
+  let r := snd (dfa_search_anchored A cfg (run_calls A cfg new_cache ks) h at_) in
+  (r = None <-> (forall e : nat, ~ nfa_path A h (start_anch A) at_ e)) /\
+  (forall e : nat, r = Some e -> at_ <= e /\ e <= length h /\ nfa_path A h (start_anch A) at_ e).
+Proof. exact dfa_search_anchored_any_history. Qed.
+Print Assumptions Dfa_dfa_search_anchored_any_history.
 
